@@ -565,14 +565,15 @@ Definition ints_in_range (evs : list event) : Prop := forall r, In r (writes evs
 
 (* the same hypotheses as computable tests (sound, see proofs) *)
 Definition case_injb (l : list string) : bool :=
-  forallb (fun a => forallb (fun b => implb (same_ident a b) (String.eqb a b)) l) l.
+  let u := dedup_by self l in
+  forallb (fun a => forallb (fun b => implb (same_ident a b) (String.eqb a b)) u) u.
 Fixpoint nodupb (l : list string) : bool :=
   match l with [] => true | x :: t => negb (mem_str x t) && nodupb t end.
 Definition storableb (v : pval) : bool := match v with PInt z => int64_ok z | _ => true end.
 Definition wf_historyb (evs : list event) : bool := forallb (fun d => nodupb (field_names d)) (descs_of evs).
 Definition case_distinctb (evs : list event) : bool :=
   case_injb (type_names evs) &&
-  forallb (fun n => case_injb (flat_map field_names (descs_named n evs))) (type_names evs).
+  forallb (fun n => case_injb (flat_map field_names (descs_named n evs))) (dedup_by self (type_names evs)).
 Definition ints_in_rangeb (evs : list event) : bool := forallb (fun r => forallb storableb (r_vals r)) (writes evs).
 
 Definition hypsb (evs : list event) : bool := wf_historyb evs && case_distinctb evs && ints_in_rangeb evs.
